@@ -2,9 +2,19 @@
 (* Model checking of the run engine on the cases of CASE_FILE: every       *)
 (* (case, configuration, fault set); emits each complete behaviour.        *)
 EXTENDS Run
+PR == INSTANCE Props_Run
 
 EndRecord == [tid |-> P.tid, ci |-> ci, fi |-> fi, events |-> evlog, verdict |-> Verdict,
               status |-> [el \in 1..N |-> StatusOf(el)], hook_failed |-> hookFailed,
               step_status |-> stepst, errmarks |-> cap.errmarks, nhooks |-> rt.hookN]
+\* the finished behaviour in the row format of the property layer
+SpecRow == [prog |-> prog, cfg |-> cfg, events |-> evlog,
+            end |-> [verdict |-> Verdict, ran |-> TRUE, status |-> [el \in 1..N |-> StatusOf(el)], hook_failed |-> hookFailed,
+                     step_status |-> stepst, eff |-> [el \in 1..N |-> <<>>], errmarks |-> cap.errmarks,
+                     real_out |-> cap.rout, real_err |-> cap.rerr]]
+\* every clause of every property holds on every behaviour of the design -- except the named defect families
+\* (a violation is printed, not raised, so that TLC goes on to explore -- and emit -- every behaviour; the check turns
+\*  each DESIGNVIOL line into a design-level violation of the owning property)
+PropsHold == rt.done => \A c \in (PR!ClausesMC(SpecRow) \ PR!KnownFamilies) : PrintT(<<"DESIGNVIOL", P.tid, ci, fi, c>>)
 Emit == rt.done => PrintT(<<"CASE", ToJson(EndRecord)>>)
 =============================================================================
